@@ -435,10 +435,10 @@ def rule_table(ctx):
     ctx.touch(rb)
     c = [cs for cs in rb.calls if mir.method_name(cs.name) == 'read_txs']
     ctx.check('table', 'flow:read_block->read_txs', len(c) == 1 and canon(rb.op_expr(c[0].args[2])) == 'a3.version_id', rb, 'read_txs(.., coin.version_id)')
-    clo = prog.one('BlockchainRead::read_txs::{closure#0}')
+    rt = prog.one('BlockchainRead::read_txs')
+    clo = util.only_closure(prog, rt)
     ctx.touch(clo)
     c = [cs for cs in clo.calls if mir.method_name(cs.name) == 'read_tx']
-    rt = prog.one('BlockchainRead::read_txs')
     mk = [canon(rt.rvalue_expr(st['rv'])) for i in rt.live for st in rt.blocks[i]['stmts'] if st['k'] == 'assign' and st['rv']['k'] == 'aggr' and st['rv']['akind'] == 'closure']
     ok = len(c) == 1 and len(mk) == 1
     if ok:
@@ -455,7 +455,7 @@ def rule_table(ctx):
     r = canon(fr.ret_expr())
     ctx.check('table', 'flow:RawTx->EvaluatedTx::new', r.endswith('a1.locktime, a1.version_id)'), fr, r)
     nw = prog.one('blockchain::proto::tx::EvaluatedTx::new')
-    ncl = prog.one('blockchain::proto::tx::EvaluatedTx::new::{closure#0}')
+    ncl = util.only_closure(prog, nw)
     ctx.touch(nw, ncl)
     c = [cs for cs in ncl.calls if mir.method_name(cs.name) == 'eval_script']
     mk = [nw.rvalue_expr(st['rv']) for i in nw.live for st in nw.blocks[i]['stmts'] if st['k'] == 'assign' and st['rv']['k'] == 'aggr' and st['rv']['akind'] == 'closure']
